@@ -2402,6 +2402,12 @@ int parse_instruction_riscv(AsmContext *asm_context, char *instr)
               return -1;
             }
 
+            if (operands[1].value < -32 || operands[1].value > 63)
+            {
+              print_error_range(asm_context, "Immediate", -32, 63);
+              return -1;
+            }
+
             immediate = permutate_16(operands[1].value << 12, RiscvPerm::imm17_1612, false);
           }
 
